@@ -159,7 +159,7 @@ theorem subArgs_sound {ops : OpSem} (co : CoreOps ops) {na e a S v : Val}
 /-- the failure tags of strict mode. -/
 def IsFlag (t : String) : Prop :=
   t = "FLAG:pair-head" ∨ t = "FLAG:sub-args-pair-head" ∨ t = "FLAG:sub-args-nil" ∨
-  t = "FLAG:sub-args-neg" ∨ t = "FLAG:get-u32-path" ∨ t = "FLAG:signed-noncanonical-path" ∨
+  t = "FLAG:sub-args-neg" ∨ t = "FLAG:signed-noncanonical-path" ∨
   t = "FLAG:sub-args-long-path"
 
 theorem isFlag_subArgsFlag (s : Val) : IsFlag (subArgsFlag s) := by
@@ -170,7 +170,7 @@ theorem isFlag_subArgsFlag (s : Val) : IsFlag (subArgsFlag s) := by
 
 theorem isFlag_pathFlag (b : Bytes) : IsFlag (pathFlag b) := by
   unfold pathFlag IsFlag
-  split <;> simp
+  simp
 
 -- hypotheses on the recursive call -------------------------------------------------------------
 
